@@ -49,6 +49,10 @@ EigendecompositionResult generalized_eigendecomposition_impl_dense(const LMatrix
 {
     timed_context context("Eigen dense generalized eigendecomposition");
 
+    if (static_cast<IndexType>(target_dimension + skip) > static_cast<IndexType>(lhs.cols()))
+        throw wrong_parameter_error(fmt::format("Target dimension {} is too large for the eigenproblem of size {}",
+                                                target_dimension, lhs.cols()));
+
     DenseMatrix dense_lhs = lhs;
     DenseMatrix dense_rhs = rhs;
     Eigen::GeneralizedSelfAdjointEigenSolver<DenseMatrix> solver(dense_lhs, dense_rhs);
